@@ -417,6 +417,9 @@ static void finish(void) {
 	if(aliveB) { c_dtor(&B); aliveB = 0; }
 	c_dtor(&A);
 	vp_end();
+#ifdef __CPROVER__
+	__CPROVER_assume(0);      /* this history is complete: drop its state instead of merging it with the other cases at the function exits */
+#endif
 }
 void harness(void) {
 	vp_region(&A, sizeof A); vp_region(&B, sizeof B);     /* inline storage (small_vector) is tracked raw storage as well */
